@@ -25,6 +25,9 @@ def plan(tier):
     if tier == "quick":
         mods.append((xgen.parser_module("c12_total_k3", "TOK13", 13, 3, "total"), 120, False))
         mods.append((xgen.parser_module("c12_total_k4", "TOK9", 9, 4, "total"), 400, False))
+        # characters that are special to formatting / regex templates: messages must quote them unchanged
+        mods.append((xgen.parser_module("c12_total_bs_k3", "TOKBS", len(L.TOKBS), 3, "total"), 300, False))
+        mods.append((xgen.parser_module("c12_entry_bs_k2", "TOKBS", len(L.TOKBS), 2, "entry", fixed=0, families=FAMILIES), 300, False))
         mods.append((xgen.parser_module("c12_reprint_k2", "CHUNKS", NCH, 2, "reprint", fixed=0), 200, False))
         mods.append((xgen.parser_module("c12_reprint_k3", "CH12", NCH12, 3, "reprint"), 200, False))
         mods.append((xgen.parser_module("c12_spacing_k2", "CHUNKS", NCH, 2, "spacing", fixed=0), 300, False))
@@ -82,7 +85,7 @@ def text_of_call(cond):
         return None, None
     kind, fam, k, first = mm.group(1), mm.group(2), int(mm.group(3)), mm.group(4)
     firsts = [int(x) for x in first.split("_") if x != ""]
-    alpha = {"c12_total_k3": L.TOK13, "c12_total_k4": L.TOK9, "c12_total_k5": L.TOK12, "c12_spacing_k3": L.SP8, "c12_reprint_k3": L.CH12}
+    alpha = {"c12_total_bs_k3": L.TOKBS, "c12_entry_bs_k2": L.TOKBS, "c12_total_k3": L.TOK13, "c12_total_k4": L.TOK9, "c12_total_k5": L.TOK12, "c12_spacing_k3": L.SP8, "c12_reprint_k3": L.CH12}
     mod = cond["file"].split("/")[-1][:-3]
     alphabet = alpha.get(mod, L.CHUNKS)
     if mod == "c12_total_k4" and runner.tier() == "thorough":
